@@ -51,12 +51,11 @@ where
         assert_eq!(self.n() as u32, res.n());
         assert_eq!(self.n() as u32, a.n());
 
-        let a_base2k: usize = a.base2k().as_usize();
-        let res_base2k: usize = res.base2k().as_usize();
-        let cnv_offset = a.size().max(b_size);
-        let res_size: usize = (res.size() * res_base2k).div_ceil(a_base2k);
-        let lvl_0: usize = self.bytes_of_vec_znx_big(1, res_size);
-        let lvl_1_cnv: usize = self.cnv_by_const_apply_tmp_bytes(res_size, cnv_offset, a.size(), b_size);
+        // The product is accumulated over `a.size() + b_size - cnv_offset_hi` limbs (see `glwe_mul_const`),
+        // whatever the size of `res`: the bound below holds for every `cnv_offset`.
+        let res_dft_size: usize = a.size() + b_size;
+        let lvl_0: usize = self.bytes_of_vec_znx_big(1, res_dft_size);
+        let lvl_1_cnv: usize = self.cnv_by_const_apply_tmp_bytes(0, res_dft_size, a.size(), b_size);
         let lvl_1_norm: usize = self.vec_znx_big_normalize_tmp_bytes();
         let lvl_1: usize = lvl_1_cnv.max(lvl_1_norm);
 
@@ -169,9 +168,10 @@ where
             .cnv_prepare_left_tmp_bytes(a_size, a_size)
             .max(self.cnv_prepare_right_tmp_bytes(b_size, b_size));
 
-        let res_dft_size =
-            normalize_input_limb_bound_worst_case(a_size + b_size, res.size(), res.base2k().as_usize(), ab_base2k.as_usize());
-        let lvl_2_cnv_apply: usize = self.cnv_apply_dft_tmp_bytes(res_dft_size, cnv_offset, a_size, b_size);
+        // `glwe_mul_plain` / `glwe_mul_plain_assign` take `a.size() + b.size() - cnv_offset_hi` limbs for the
+        // product, whatever the size of `res`: the bound below holds for every `cnv_offset`.
+        let res_dft_size: usize = a_size + b_size;
+        let lvl_2_cnv_apply: usize = self.cnv_apply_dft_tmp_bytes(cnv_offset, res_dft_size, a_size, b_size);
 
         let lvl_2_res_dft: usize = self.bytes_of_vec_znx_dft(1, res_dft_size);
         let lvl_2_norm: usize = self.vec_znx_big_normalize_tmp_bytes();
